@@ -207,7 +207,7 @@ namespace {
       const R m = ref::maxabs(dk) + ref::maxabs(dElog);
       for (int i = 0; i < 3; ++i)
         for (int j = 0; j < 3; ++j)
-          c.close(dk(i, j), dElog(i, j), 1e-9L * m + 100 * err,
+          c.close(dk(i, j), dElog(i, j), 1e-7L * m + 100 * err,
                   "C24.oracle.dlog", "Daleckii-Krein vs finite difference of the logarithm");
     }
     const M3 d = ref::sym(L);
@@ -230,7 +230,7 @@ namespace {
       Stensor S2;
       S2.importTab(tab);
       for (int k = 0; k < nS; ++k)
-        c.close(S2[k], S[k], 2048 * u * ref::maxabs(gen::stensorToM3(S)) + 1e-300L, "C24.pointer.pk2",
+        c.close(S2[k], S[k], 256 * u * s.kC * s.relax * ref::maxabs(gen::stensorToM3(S)) + 1e-300L, "C24.pointer.pk2",
                 "pointer overload of convertToSecondPiolaKirchhoffStress");
       h.convertFromSecondPiolaKirchhoffStress(tab);
       Stensor T3;
@@ -262,7 +262,7 @@ namespace {
       Stensor s2;
       s2.importTab(tab);
       for (int k = 0; k < nS; ++k)
-        c.close(s2[k], sig[k], 2048 * u * ref::maxabs(gen::stensorToM3(sig)) + 1e-300L,
+        c.close(s2[k], sig[k], 256 * u * s.kC * s.relax * ref::maxabs(gen::stensorToM3(sig)) + 1e-300L,
                 "C24.pointer.cauchy", "pointer overload of convertToCauchyStress");
       h.convertFromCauchyStress(tab);
       Stensor T5;
@@ -318,7 +318,7 @@ namespace {
       if (s.cls == "tiny_gap") key = "C24.moduli.tiny_gap";
       if (flag == fs::ABAQUS && s.setting == Handler::LAGRANGIAN) key = "C24.moduli.abaqus.lagrangian";
       // DESIGN: 1e-6 relaxed by 1/gap for nearly equal stretches; much tighter otherwise
-      const R rel = s.relax > 1 ? std::max(1e-9L * amp, R(1e-6L)) * s.relax : 1e-9L * amp;
+      const R rel = s.relax > 1 ? 4 * std::max(1e-9L * amp, R(1e-6L)) * s.relax : 1e-9L * amp;
       cmpK(c, k, r.D, rel * m + 100 * r.err, key, what + ", " + s.sname);
     };
     // one conversion per case: a known defect of one of them must not hide the others
